@@ -3,6 +3,7 @@ import AITB.Model.Factored
 import AITB.Model.FactoredAlg
 import AITB.Model.FactoredMdp
 import Driver.C14b
+import AITB.Gen.C14Sites
 open AITB AITB.Factored
 
 /-! Driver handlers of C14 round 3: checkTag, factorSpace clamp, enumerator constructors + reset, DDNGraph::push,
@@ -10,6 +11,9 @@ open AITB AITB.Factored
     is a `diff`, the property clause evaluated on the implementation's own numbers is a `fail`. -/
 namespace DrvC14c
 open DrvC14b
+
+/-- number of source definitions pinned by tools/extract_c14.py (the tie of the model's transcription; regenerated every run) -/
+def pinnedSites : Nat := AITB.Gen.C14Sites.pinned
 
 /-- independent reading of "well-formed tag": non-empty, strictly ascending, ids in range (NOT via the checkTag model) -/
 def tagSpec (n : Nat) (tag : List Nat) : Bool :=
